@@ -26,7 +26,9 @@ NAMES = ["a", "b", "c", "x", "z", "g", "h", "x1", "mod.fn", "df.col_1", "Ab",
          "true", "none", "TRUE", "False_", "nan", "e1", "in", "\u00b5g", "x\u00b2", "\ufb01x", "\uff41"]
 BQ = ["`q`", "`q q`", "`a+b`", "`x:y`", "`1st`", "`(p)`", "`~`", "`é|`", "`\u00b5 m`", "`True`", "`a\\b`"]
 FUNCS = ["f", "g2", "np.log", "center", "C", "mod.sub.fun"]
-STRS = ["'s'", '"s"', "'a b'", '"x:y"', "''", "'+'", '"(1|g)"', "'Z\u00fcrich'", "'\u00b5g'", "'a\\nb'", '"\u212b"']
+STRS = ["'s'", '"s"', "'a b'", '"x:y"', "''", "'+'", '"(1|g)"', "'Z\u00fcrich'", "'\u00b5g'", "'a\\nb'", '"\u212b"',
+        # a quote of the other kind inside: the scanner ends a string at EITHER quote, so these are not sentences
+        "'5\"'", '"it\'s"', "'\"hi\"'"]
 NUMS = ["0", "1", "2", "3", "10", "1.5", ".5", "0.0", "007"]
 
 
